@@ -287,8 +287,43 @@ def template_main():
                 "digest": d2, "shrink_attempts": attempts,
                 "original_ops": len(scenario["ops"]), "minimised_ops": len(small["ops"]),
             }, f, indent=1)
+        # make sure the file replays in a fresh interpreter.  A violation that depends on
+        # which freed address the allocator recycles (code keyed on id()) depends on the
+        # heap history of the process; the replay child then tries a few deterministic
+        # perturbations of its free lists and the one that reproduces is recorded.
+        with open(path) as f:
+            rp = json.load(f)
+        stable = None
+        for k in range(0, 16):
+            out = replay_outcome(path, rp, heap_perturb=k)
+            if _vclass(out) == vclass:
+                stable = k
+                rp["heap_perturb"] = k
+                rp["digest"] = util.digest_of(out.get("events", []))
+                break
+        if stable is None and small is not scenario:
+            # fall back to the unminimised scenario
+            rp["scenario"] = scenario
+            rp["minimised_ops"] = len(scenario["ops"])
+            with open(path, "w") as f:
+                json.dump(rp, f, indent=1)
+            for k in range(0, 16):
+                out = replay_outcome(path, rp, heap_perturb=k)
+                if _vclass(out) == vclass:
+                    stable = k
+                    rp["heap_perturb"] = k
+                    rp["digest"] = util.digest_of(out.get("events", []))
+                    break
+        rp["replay_validated"] = stable is not None
+        if stable is None:
+            rp["note"] = ("reproduced in the discovering process (and in every shrink attempt "
+                          "there) but not in a fresh interpreter: the violation depends on the "
+                          "allocator's address reuse")
+        with open(path, "w") as f:
+            json.dump(rp, f, indent=1)
         agg["violations"].append({"run_index": i, "cls": vclass, "replay": path,
-                                  "detail": r2["violation"].get("detail")})
+                                  "detail": r2["violation"].get("detail"),
+                                  "replay_validated": stable is not None})
 
     def flush_pending():
         if not pending:
@@ -332,13 +367,36 @@ def template_main():
 
 # {{{ driver
 
+_NOASLR = None
+
+
+def no_aslr_prefix():
+    """Address-space randomisation is one more source of nondeterminism: it decides which
+    freed address the allocator hands out next, and with it the behaviour of any code keyed
+    on id().  Templates, replay children and C17 nodes are started with it switched off."""
+    global _NOASLR
+    if _NOASLR is None:
+        import platform
+        import shutil
+        _NOASLR = []
+        exe = shutil.which("setarch")
+        if exe:
+            cmd = [exe, platform.machine(), "-R"]
+            try:
+                if subprocess.run(cmd + ["true"], capture_output=True, timeout=20).returncode == 0:
+                    _NOASLR = cmd
+            except Exception:  # noqa: BLE001
+                pass
+    return _NOASLR
+
+
 def start_template(pid, slot, base, tier, budget_s, max_index, open_sigs, extra):
     env = dict(os.environ)
     env["PYTHONHASHSEED"] = str(util.slot_hash_seed(base, slot))
     env["PYTHONPATH"] = VERIF_DIR + os.pathsep + env.get("PYTHONPATH", "")
     env["PYTHONDONTWRITEBYTECODE"] = "1"
     pyflags = extra.get("pyflags", [])
-    p = subprocess.Popen([PY, *pyflags, "-c",
+    p = subprocess.Popen([*no_aslr_prefix(), PY, *pyflags, "-c",
                           "from dst.driver import template_main; template_main()"],
                          stdin=subprocess.PIPE, stdout=subprocess.PIPE, env=env,
                          cwd=VERIF_DIR)
@@ -536,7 +594,9 @@ def main_check(argv):
     seen = set()
     for v in tot["violations"]:
         if v.get("replay"):
-            print(f"VIOLATION property={pid} replay={v['replay']}  class={v['cls']}")
+            print(f"VIOLATION property={pid} replay={v['replay']}  class={v['cls']}"
+                  + ("" if v.get("replay_validated", True) else
+                     "  (replays only in the discovering process: depends on address reuse)"))
             rc = 1
         elif v["cls"] not in seen:
             print(f"(further violation of class {v['cls']} at run {v['run_index']}, not minimised)")
@@ -550,20 +610,32 @@ def main_check(argv):
     return rc
 
 
-def replay(pid, path):
-    with open(path) as f:
-        rp = json.load(f)
+def replay_outcome(path, rp, heap_perturb=None):
+    """Execute a replay file in a fresh interpreter (pinned hash seed, no ASLR); returns the
+    result dict of the run or {'harness_error': ...}."""
     env = dict(os.environ)
     env["PYTHONHASHSEED"] = str(rp["hash_seed"])
     env["PYTHONPATH"] = VERIF_DIR + os.pathsep + env.get("PYTHONPATH", "")
     env["PYTHONDONTWRITEBYTECODE"] = "1"
-    p = subprocess.run([PY, *rp.get("pyflags", []), "-c",
-                        "from dst.driver import replay_child; replay_child()", path],
-                       env=env, cwd=VERIF_DIR, capture_output=True, timeout=600)
+    if heap_perturb is not None:
+        env["VERIF_HEAP_PERTURB"] = str(heap_perturb)
+    else:
+        env.pop("VERIF_HEAP_PERTURB", None)
     try:
-        res = json.loads(p.stdout.decode("utf8").strip().splitlines()[-1])
-    except Exception:
-        print("HARNESS-ERROR replay child failed:", p.stderr.decode("utf8")[-2000:])
+        p = subprocess.run([*no_aslr_prefix(), PY, *rp.get("pyflags", []), "-c",
+                            "from dst.driver import replay_child; replay_child()", path],
+                           env=env, cwd=VERIF_DIR, capture_output=True, timeout=600)
+        return json.loads(p.stdout.decode("utf8").strip().splitlines()[-1])
+    except Exception as e:  # noqa: BLE001
+        return {"harness_error": f"replay child failed: {e}"}
+
+
+def replay(pid, path):
+    with open(path) as f:
+        rp = json.load(f)
+    res = replay_outcome(path, rp)
+    if "harness_error" in res and "violation" not in res:
+        print("HARNESS-ERROR", res["harness_error"])
         return 2
     if "harness_error" in res:
         print("HARNESS-ERROR", res["harness_error"])
@@ -592,7 +664,11 @@ def replay_child():
     if hasattr(P, "template_init"):
         P.template_init({"prop": rp["property"], "base_seed": rp["base_seed"]})
     open_sigs = load_known_findings().get(rp["property"], {})
+    k = int(os.environ.get("VERIF_HEAP_PERTURB", rp.get("heap_perturb", 0)))
+    junk = [bytearray((37 * j) % 480 + 16) for j in range(61 * k)]
+    del junk[::2]          # a deterministic change of the allocator's free lists
     res = run_full(P, rp["scenario"], open_sigs)
+    del junk
     sys.stdout.write(json.dumps(res) + "\n")
 
 
